@@ -642,7 +642,7 @@ int runCheck(const Opts &o, Check<Inst> &c) {
       size_t m = s.size() / 8;
       size_t base = all.size();
       all.resize(base + m);
-      memcpy(all.data() + base, s.data(), m * 8);
+      if (m > 0) memcpy(all.data() + base, s.data(), m * 8);
       unlink(ntPath(k).c_str());
     }
     std::sort(all.begin(), all.end());
